@@ -59,3 +59,8 @@ func VerifC05AckPacket() {
 		ProofHeight: clienttypes.Height{RevisionNumber: rt.U64("rev2"), RevisionHeight: rt.U64("height2")}, Signer: rt.Str("signer2")}
 	rt.Assert("K3-second-ack-fails", w.k.AcknowledgePacket(w.ctx, msg2) != nil)
 }
+
+// VerifC05AckOfExactlyThatPacket (shared with the C02 check): an acknowledgement is accepted only if this chain still holds
+// the commitment of exactly the packet the message carries - the stored value equals sha256 of the ABI encoding of the decoded
+// packet - and the counterparty provably stored the hash of exactly those acknowledgement bytes; the commitment is deleted then.
+func VerifC05AckOfExactlyThatPacket() { c02Ack() }
